@@ -102,6 +102,24 @@ func filterContract(ct *Contract, o UnitOpts) *Contract {
 		return ct
 	}
 	nc := *ct
+	// a requires clause labelled only-<group>-... is a hypothesis needed by that group alone (kept out of
+	// the other groups' queries, where it would only be ballast)
+	nc.Requires = nil
+	for _, c := range ct.Requires {
+		if strings.HasPrefix(c.Label, "only-") {
+			rest := c.Label[len("only-"):]
+			keep := false
+			for _, g := range o.Groups {
+				if rest == g || strings.HasPrefix(rest, g+"-") {
+					keep = true
+				}
+			}
+			if !keep {
+				continue
+			}
+		}
+		nc.Requires = append(nc.Requires, c)
+	}
 	nc.Ensures = nil
 	for _, c := range ct.Ensures {
 		if o.keep(c.Label) {
